@@ -23,6 +23,7 @@ import SkModel.Cache
 import SkModel.Fault
 import SkModel.Spec.Lines
 import SkModel.Fast
+import SkModel.StdTs
 
 open Lean Sk
 
@@ -727,8 +728,23 @@ def runNameRxCase (j : Json) : Json :=
     | .live s => Json.arr #["live", Json.str s, toJson e.key]
     | .rotated s => Json.arr #["rotated", Json.str s, toJson e.key])
 
+/-- `stdTs` at every offset of a byte string: [[offset, seconds]] where a timestamp is found.
+    Walks the suffixes, so the cost is O(len * W). -/
+def stdTsTable (W : Nat) : List Nat → Nat → List (Nat × Int) → List (Nat × Int)
+  | [], _, acc => acc.reverse
+  | bs@(_ :: rest), off, acc =>
+    let acc' := match parseStd (bs.take W) with
+      | some c => if c.valid then (off, c.toSeconds) :: acc else acc
+      | none => acc
+    stdTsTable W rest (off + 1) acc'
+
+def runStdTsCase (j : Json) : Json :=
+  let bs := (arrF j "bytes").toList.map asNat
+  Json.arr ((stdTsTable (natF j "W") bs 0 []).map fun p => Json.arr #[toJson p.1, toJson p.2]).toArray
+
 def handle (j : Json) : Json :=
   match strF j "kind" with
+  | "stdts" => Json.mkObj [("model", runStdTsCase j)]
   | "task" => Json.mkObj [("model", runTaskCase j), ("specSimple", specSimpleCase j),
                           ("specSeq", specSeqCase j), ("specGate", specGateCase j),
                           ("specSeqGated", specSeqGatedCase j)]
